@@ -11,7 +11,7 @@ EXPLANATION = (
     "integers only, lt/gt with the first popped on the left, wrapping shifts by the second operand; do_binop/do_triop pop in order and push the result. R3 failure discipline: no "
     "undischarged may-panic site in the interpreter; failures are `?` on Options. R4 determinism: no unordered iteration, clock or RNG in melvm; the heap map is only accessed by key. "
     "R5 result: run_to_end loops `step()?` while pc < len and returns stack.pop(). R6 value layout: Transaction/Header/CoinData/CoinDataHeight/CoinID are presented to covenants as "
-    "vectors whose positions follow the declaration order of the melstructs types. R7 bit-bounded exponentiation: each iteration of the squaring loop consumes one unit of k through checked_sub(1)?."
+    "vectors whose positions follow the declaration order of the melstructs types. R7 bit-bounded exponentiation: each iteration of the squaring loop consumes one unit of k through checked_sub(1)?. R8 operand narrowing: every place melvm keeps only part of a 256-bit operand (U256::low/as_uN) is unreachable when the whole value exceeds the target type, except the three instructions whose specified behaviour is truncation."
 )
 NOT_DECIDED = ["conformance to the external MelVM specification as a whole (no executable specification in the repository)", "CatVec vector/byte-string operations' out-of-range behaviour beyond the guards checked in C11.R5 and R3"]
 ASSUMPTIONS = ["ethnum::U256 overflowing_*/checked_*/wrapping_* have their documented meaning", "tmelcrypt::Ed25519PK::verify / hash_single as documented"]
@@ -358,4 +358,88 @@ def r7_bounded_exp(ctx):
     r.check(shr == ["%sShrAssign<i32> for ethnum::U256>::shr_assign(e#2, 1)" % UO], "loop/progress", "e >>= 1 each iteration", "progress: %s" % shr)
 
 
-RULES = [r1_dispatch, r2_alu, r3_failure_discipline, r4_determinism, r5_result, r6_layouts, r7_bounded_exp]
+NARROW = ("U256::low", "U256::as_u8", "U256::as_u16", "U256::as_u32", "U256::as_u64", "U256::as_u128", "U256::as_usize", "U256::as_i8", "U256::as_i16", "U256::as_i32", "U256::as_i64", "U256::as_i128", "U256::as_isize", "U256::into_words", "U256::low_mut")
+
+def r8_narrowing(ctx):
+    r = ctx.rule("R8", "a 256-bit operand is never narrowed without a full-width range test: every U256::low()/as_uN() in melvm is unreachable when the value exceeds the target type, "
+                       "or is one of the reviewed truncating instructions (BPush low byte, Shl/Shr shift amount, into_truncated_u8)")
+    prog = ctx.prog
+    st, variants, table, nowild = _step_table(ctx, r)
+    arm_of = {a["closure"].id: v for v, a in table.items() if a["closure"] is not None}
+    reviewed_arms = {"BPush": "BPush appends the low byte of its operand (existing, tested semantics)", "Shl": "shift amount is taken modulo 2^32 then modulo 256 by wrapping_shl (R2 fixes the expression)",
+                     "Shr": "shift amount is taken modulo 2^32 then modulo 256 by wrapping_shr (R2 fixes the expression)"}
+    n = 0
+    for b in prog.bodies:
+        if b.crate != "melvm" or b.kind == "Promoted":
+            continue
+        calls = q.all_call_exprs(b)
+        sites = [(bi, e) for bi, e in calls if e[0] == "call" and any(e[1] == x or e[1].endswith("::" + x) or e[1].endswith(x) for x in NARROW)]
+        checked = [(bi, e) for bi, e in calls if e[0] == "call" and "TryFrom<ethnum::U256>" in e[1]]
+        for bi, e in checked:
+            n += 1
+            r.ok("checked/%s" % _short(b), "checked conversion %s" % e[1][:60], b.where(bi))
+        if not sites:
+            continue
+        ctx.analysed(b)
+        atoms = q.cmp_atoms(b)
+        for bi, e in sites:
+            n += 1
+            subj = e[2][0] if e[2] else None
+            meth = e[1].split("::")[-1]
+            # width actually kept: low() is 128 bits unless the only uses cast it further down
+            width = {"low": 128, "low_mut": 128, "into_words": 128}.get(meth) or int("".join(c for c in meth if c.isdigit()) or 64)
+            if meth == "low":
+                casts = _casts_of(b, e)
+                if casts:
+                    width = max(casts)
+            key = "%s/%s" % (_short(b), meth)
+            where = b.where(bi)
+            arm = arm_of.get(b.id)
+            if b.nname == "melvm::value::Value::into_truncated_u8":
+                r.ok("narrow/" + key, "reviewed: the helper's contract is truncation to the low byte", where)
+                continue
+            if arm in reviewed_arms:
+                r.ok("narrow/%s/%s" % (arm, meth), "reviewed: " + reviewed_arms[arm], where)
+                continue
+            good = None
+            for ae, canon, abi in atoms:
+                cm = q.as_cmp(ae)
+                if not cm:
+                    continue
+                op, l, rr_ = cm
+                # value > K  (Gt(x,K) / Lt(K,x)) or value >= K
+                for (a1, a2, o) in ((l, rr_, op), (rr_, l, q.SWAP[op])):
+                    if mir.strip(a1) == mir.strip(subj) and o in ("Gt", "Ge"):
+                        k = q.const_val(a2)
+                        if k is None:
+                            continue
+                        bound = k if o == "Gt" else k - 1
+                        if bound <= (1 << width) - 1:
+                            f = force(b, {ae: 1})
+                            if bi not in f.reach:
+                                good = "unreachable when the value exceeds %d (≤ u%d::MAX)" % (bound, width)
+            if good:
+                r.ok("narrow/" + key, good, where)
+            else:
+                r.violation("narrow/" + key, "%s narrows a 256-bit value to %d bits (%s) with no test on the whole value: operands ≥ 2^%d alias small ones" % (b.nname, width, sig(e)[:80], width), where)
+    r.floor("U256 narrowing sites", n, 5)
+
+
+def _short(b):
+    return b.nname.replace("melvm::", "").replace("{closure#", "c").replace("}", "")
+
+
+def _casts_of(b, e):
+    """bit widths of `(<e> as uN)` casts appearing in the body"""
+    out = []
+    for bi, si, s in b.iter_stmts():
+        if s["k"] == "assign" and s["rv"]["k"] == "cast":
+            x = b.rec_rvalue(s["rv"], bi, si)
+            if x[0] == "cast" and mir.strip(x[1]) == mir.strip(e):
+                ty = str(x[-1])
+                d = "".join(c for c in ty if c.isdigit())
+                out.append(int(d) if d else 64)
+    return out
+
+
+RULES = [r1_dispatch, r2_alu, r3_failure_discipline, r4_determinism, r5_result, r6_layouts, r7_bounded_exp, r8_narrowing]
